@@ -103,7 +103,7 @@ WReturn(w) ==
   /\ UNCHANGED <<dir, file, temp, wjob, rpc, rjob, rurl, rfile, rgot, rres, rstart, order>>
 
 WFailCleanup(w) ==   \* error path of WriteFile before the rename: the temporary file is removed, nothing else changes
-  /\ wpc[w] \in {"created", "closed"} /\ temp[Cur(w)]
+  /\ wpc[w] \in {"created", "closed"} /\ temp[Cur(w)] = TRUE      \* ("= TRUE": TLC's simulator does not get past a bare f[x] conjunct)
   /\ temp' = [temp EXCEPT ![Cur(w)] = FALSE]
   /\ file' = [file EXCEPT ![Cur(w)].exists = FALSE]
   /\ wpc' = [wpc EXCEPT ![w] = "returned"]
